@@ -256,6 +256,22 @@ impl<'a> Fold<Diagnostic> for TypeResolver<'a> {
                 // The type of a variable having a constant as the initial value (or
                 // of an external variable) is known to be simple from the syntax.
                 // The type still must be one that is declared.
+                //
+                // The declaration of an external variable names every kind of
+                // type in this way. When the type is a function block, then
+                // the variable is an instance of the function block.
+                if simple.initial_value.is_none() {
+                    if let Some(TypeDefinitionKind::FunctionBlock) =
+                        self.types.find(&simple.type_name)
+                    {
+                        return Ok(InitialValueAssignmentKind::FunctionBlock(
+                            FunctionBlockInitialValueAssignment {
+                                type_name: simple.type_name,
+                                init: vec![],
+                            },
+                        ));
+                    }
+                }
                 self.check_declared(&simple.type_name);
                 Ok(InitialValueAssignmentKind::Simple(simple))
             }
